@@ -56,3 +56,16 @@ func BuildBoxesStyle(h *tree.HTML, user []tree.CSS, hints bool, fc text.FontConf
 	footnotes := new([]bo.Box)
 	return bo.BuildFormattingStructure(h.Root, style, bo.URLResolver{Fetch: h.UrlFetcher, FetchImage: imgFetcher}, h.BaseUrl, &tc, cs, footnotes), style
 }
+
+// WalkBoxes visits b and its descendants in document order; f returns false to skip the children.
+func WalkBoxes(b bo.Box, f func(bo.Box) bool) {
+	if b == nil {
+		return
+	}
+	if !f(b) {
+		return
+	}
+	for _, c := range b.Box().Children {
+		WalkBoxes(c, f)
+	}
+}
